@@ -77,7 +77,10 @@ class FileProxy(io.TextIOBase):
         return line
 
     def read(self, *a):
-        return self._fh.read(*a)
+        data = self._fh.read(*a)
+        if data:
+            self._tr.nread += data.count("\n") + (0 if data.endswith("\n") else 1)
+        return data
 
     def seek(self, *a):
         return self._fh.seek(*a)
